@@ -9,13 +9,14 @@
    runs, Euler and RK4 rows for models without infection), and the scaling
    identities (clipping commutes with k > 0, prevalence is scale invariant, sums are homogeneous).
    For whole models without infection flows, flow order (C15_flow_order_model) and compartment order
-   (C15_compartment_order_model) are proved on get_comp_rates itself.  Strata / stratification-order equivariance of
-   the build, renaming, "flow added before = after an unadjusted stratification", and the order statements for models
+   (C15_compartment_order_model) are proved on get_comp_rates itself.  Two stratifications applied in either order give
+   the same compartments (C15_stratification_order_compartments).  Strata-order equivariance and the rest of the
+   stratification-order equivariance of the build (flows, populations, trajectories), renaming, "flow added before = after an unadjusted stratification", and the order statements for models
    with infection flows are established by the metamorphic oracle and the correspondence only (DESIGN.md 6.15). *)
 From Coq Require Import QArith Qcanon List String Bool Permutation.
 Import ListNotations.
 From S2 Require Import Base.Num Base.Arr Model.Expr Model.Struct Model.Solvers
-     Model.Rates Model.Run Model.Program Proofs.NumQc Proofs.NumLemmas Proofs.InvarianceProofs Proofs.TimeShift Proofs.Scaling Proofs.ShiftBuild Proofs.BuildProofs Proofs.FlowOrder Proofs.AggregateAll Proofs.CompOrder Proofs.PopScale Proofs.StratCompsOrder Model.InitPop Gen.SolversGen Props.Examples.
+     Model.Rates Model.Run Model.Program Proofs.NumQc Proofs.NumLemmas Proofs.InvarianceProofs Proofs.TimeShift Proofs.Scaling Proofs.ShiftBuild Proofs.BuildProofs Proofs.FlowOrder Proofs.AggregateAll Proofs.CompOrder Proofs.PopScale Proofs.StratCompsOrder Proofs.StratSwap Model.InitPop Gen.SolversGen Props.Examples.
 
 Theorem C15_flow_permutation :
   forall (O : NumOps) (T : NumTheory O) (rate : flow -> F O) (fl fl' : list flow) (c : comp),
@@ -225,3 +226,31 @@ Example C15_scaling_nonvacuous :
 Proof.
   vm_compute. repeat split. constructor; [|constructor]. intro H. discriminate H.
 Qed.
+
+(* two stratifications with different names, applied in either order, produce the same compartments: as many, and every
+   compartment of one order is a compartment of the other with the same name and the same stratum for every
+   stratification (the order of its strata pairs is presentation) - for every compartment list, full or partial
+   stratifications, any strata *)
+Theorem C15_stratification_order_compartments :
+  forall s1 s2 cs,
+    s_name s1 <> s_name s2 ->
+    let ab := stratify_comps s2 (stratify_comps s1 cs) in
+    let ba := stratify_comps s1 (stratify_comps s2 cs) in
+    List.length ab = List.length ba
+    /\ (forall x, In x ab -> exists y, In y ba /\ comp_same x y)
+    /\ (forall y, In y ba -> exists x, In x ab /\ comp_same y x).
+Proof.
+  intros s1 s2 cs Hn. cbv zeta.
+  destruct (stratifications_commute_on_compartments s1 s2 cs Hn) as [L M].
+  destruct (stratifications_commute_on_compartments s2 s1 cs (fun E => Hn (eq_sym E))) as [_ M'].
+  split; [exact L|]. split; [exact M | exact M'].
+Qed.
+Print Assumptions C15_stratification_order_compartments.
+
+Example C15_stratification_order_nonvacuous :
+  let s1 := {| s_name := "age"; s_kind := SPlain; s_strata := ["y"; "o"]; s_comps := ["S"; "I"]; s_split := []; s_fadj := []; s_iadj := []; s_mix := None |}%string in
+  let s2 := {| s_name := "loc"; s_kind := SPlain; s_strata := ["u"; "r"; "x"]; s_comps := ["I"; "R"]; s_split := []; s_fadj := []; s_iadj := []; s_mix := None |}%string in
+  let cs := map (fun n => {| c_name := n; c_strata := [] |}) ["S"; "I"; "R"]%string in
+  List.length (stratify_comps s2 (stratify_comps s1 cs)) = 11%nat
+  /\ stratify_comps s2 (stratify_comps s1 cs) <> stratify_comps s1 (stratify_comps s2 cs).
+Proof. split; [vm_compute; reflexivity | vm_compute; intro H; discriminate H]. Qed.
